@@ -101,8 +101,8 @@ for _h in HARNESSES:
 SETUP_HARNESS["hexane"] = "codec::verif_kani::codec_varbuf_bytes"
 
 PROPS["C35"] = {
-    "decided": "wire level of hexane: the varint codec for ALL u64 / i64 and every byte string up to 11 bytes (and its equality with reference readers), every RleValue pack/unpack pair, length prefixes near u64::MAX, and the load-time contract of RLE columns - whatever rle_validate_encoding accepts (every 2-5 byte slab of a u64 / nullable u64 column) the unchecked decoder walks without panicking, yielding exactly the announced number of items",
-    "outside": ["Column::load / save / splice, the slab B-tree and slab cutting (3 pushes into a Column do not finish in 10 min)", "boolean and delta columns", "string slabs and the skipping read nth() (past 1800 s)"],
+    "decided": "wire level of hexane: the varint codec for ALL u64 / i64 and every byte string up to 11 bytes (and its equality with reference readers), every RleValue pack/unpack pair, length prefixes near u64::MAX, and the load-time contract of RLE columns - whatever rle_validate_encoding accepts (every 2-5 byte slab of a u64 / nullable u64 column) the unchecked decoder walks without panicking, yielding exactly the announced number of items; boolean columns: validator total, decoder and nth equal to an independent reading of the run lengths (every 2-4 byte slab); the streaming loaders' item counts, accumulated from untrusted run lengths, are refused instead of overflowing",
+    "outside": ["Column::load / save / splice, the slab B-tree and slab cutting (3 pushes into a Column do not finish in 10 min)", "delta columns; the streaming loaders RleLoadIter / BoolLoadIter as a whole (they build Vec<Slab>: out of memory / past 900 s) - the validator harnessed is ColumnEncoding::validate_encoding, which shares try_next_segment + validate_after with the RLE loader", "string slabs and the RLE skipping read nth() (past 1800 s)"],
 }
 PROPS["C39"] = {
     "decided": "String::try_unpack only returns valid UTF-8 (independent validator): every byte string up to 4 (thorough 5) bytes, 8 ASCII bytes followed by an arbitrary 1-2 byte tail (word-at-a-time scans), length prefixes near u64::MAX; the unchecked unpack then returns the same bytes",
